@@ -23,10 +23,27 @@ COLLIDING = [("time:12", "30"), ("time", "12:30"), ("a,b", "c"), ("a", "b,c"), (
 FEATURE_LABELS = ["snr", "duration", "bandwidth", "peak_freq", "entropy", "loudness", "centroid", "flux"]
 VALUES = ["Myotis myotis", "social", "good", "", "ünïcödé ✓", "a/b:c", " leading", "x" * 40, "0", "echolocation"]
 STATES = None
+LINK_DIR, LINK_TARGET = "lnk_dir", "lnk_target"
+
+
+def make_link(audio_root):
+    """Create <audio_root>/lnk_dir -> lnk_target (a real directory) if the root is absolute; idempotent."""
+    import os
+
+    root = Path(audio_root)
+    if not root.is_absolute():
+        return False
+    try:
+        (root / LINK_TARGET / "inner").mkdir(parents=True, exist_ok=True)
+        if not (root / LINK_DIR).exists():
+            os.symlink(LINK_TARGET, root / LINK_DIR)
+        return True
+    except OSError:
+        return False
 
 
 class GraphGen:
-    def __init__(self, seed, p_opt=0.5, p_share=0.5, size=2, audio_root=None, geom_types=None, hostile=False, p_outside=0.0):
+    def __init__(self, seed, p_opt=0.5, p_share=0.5, size=2, audio_root=None, geom_types=None, hostile=False, p_outside=0.0, p_id_reuse=0.0):
         from soundevent import data
 
         self.data = data
@@ -39,6 +56,9 @@ class GraphGen:
         self.hostile = hostile
         self.p_outside = p_outside
         self.n_outside = 0
+        self.p_id_reuse = p_id_reuse     # identifiers are unique per kind of object only: reuse one across kinds
+        self.n_id_reused = 0
+        self._ids = {}
         self.users, self.tags, self.recordings, self.clips = [], [], [], []
         self.sound_events, self.sequences = [], []
         self._terms = {}
@@ -48,7 +68,18 @@ class GraphGen:
         return self.rng.random() < (self.p_opt if p is None else p)
 
     def uid(self):
-        return uuid.UUID(int=self.rng.getrandbits(128), version=4)
+        u = uuid.UUID(int=self.rng.getrandbits(128), version=4)
+        if self.p_id_reuse:
+            import sys
+
+            space = sys._getframe(1).f_code.co_qualname
+            mine = self._ids.setdefault(space, set())
+            others = sorted({x for k, v in self._ids.items() if k != space for x in v} - mine, key=str)
+            if others and self.rng.random() < self.p_id_reuse:
+                u = self.rng.choice(others)
+                self.n_id_reused += 1
+            mine.add(u)
+        return u
 
     def dt(self):
         r = self.rng
@@ -147,7 +178,11 @@ class GraphGen:
         def make():
             r = self.rng
             name = r.choice(["rec.wav", "with space.wav", "ünï_音.flac", "a.b.c.wav", "REC_001.WAV", "trailing space.wav ", "\u3000wide.wav"])
-            sub = subdir if subdir is not None else r.choice(["", "site1", "site 2/night", "a/b/c/d", "ünï", " leading space dir", "\u3000ideographic", "dir /x"])
+            sub = subdir if subdir is not None else r.choice(["", "site1", "site 2/night", "a/b/c/d", "ünï", " leading space dir", "\u3000ideographic", "dir /x",
+                                                             # spellings a user-typed or joined path can have: a '..' hop between two
+                                                             # sub-directories and a sub-directory that is a symbolic link (LINK_DIR ->
+                                                             # LINK_TARGET, created by the workload when the audio root is a real directory)
+                                                             "site_a/../site_b", "deep/er/../../up", LINK_DIR + "/inner"])
             lead = "" if sub else r.choice(["", "", " "])   # a top-level file name may itself start with a blank
             out = outside or (self.p_outside > 0 and r.random() < self.p_outside)
             if out:
